@@ -122,7 +122,44 @@ def explore(ck, scen_path, outdir, tag, chunk=25, label="random"):
     return scs, bad
 
 
-def report(ck, sc, info, extra=None):
+DD2 = "C01-DD2"
+
+
+def dd2_open():
+    """The open finding C01-DD2 is listed in the committed known_findings.json (never edited at run time)."""
+    return any(f.get("id") == DD2 for f in vlib.load_findings().get("findings", []))
+
+
+def is_dd2(files, info):
+    """Family predicate of C01-DD2: the first divergence lies in the burst of events that a
+    Sim::crash / Sim::bounce call produces (between the last `step` record and the controller's crash / bounce
+    record), the two fresh-process traces agree with each other, and inside that burst the four traces contain the
+    same network sends, only in a different order (the crashed host's spawned tasks were dropped in another order)."""
+    try:
+        tr = [[json.loads(x) for x in open(f)] for f in files]
+        p = info["position"] - 1
+        if tr[2] != tr[3] or p >= min(len(t) for t in tr):
+            return False
+        ref = tr[2]
+        start = max([i for i in range(p) if ref[i].get("ev") == "step"] + [-1]) + 1
+        wins = []
+        for t in tr:
+            end = next((i for i in range(p, len(t)) if t[i].get("ev") == "ctl" and t[i].get("op") in ("crash", "bounce")), None)
+            if end is None or any(r.get("ev") == "step" for r in t[p:end]):
+                return False
+            sends = sorted(json.dumps(r, sort_keys=True) for r in t[start:end] if r.get("message") == "Send")
+            wins.append((end, json.dumps(t[end], sort_keys=True), sends))
+        return len(sends) >= 2 and all(w == wins[0] for w in wins)
+    except Exception:
+        return False
+
+
+def report(ck, sc, info, extra=None, files=None):
+    if files and dd2_open() and is_dd2(files, info):
+        ck.known(DD2, f"scenario {sc.get('id')}: the spawned tasks of a crashed host are dropped in an order that depends on "
+                      f"tokio's process-global task ids (in-process repetition differs at record {info.get('position')}; "
+                      f"fresh processes agree)")
+        return
     payload = {"kind": "scenario", "property": ck.pid, "scenario": sc,
                "first_divergence": info,
                "clause": "DetTrace.Step: the four records at the same position must be equal (and the traces equally long)"}
@@ -153,11 +190,11 @@ def run(pid, tier, seed, replay=None):
     scen = os.path.join(w, "scenarios.ndjson")
     vlib.run_driver("det", ["mk", f"seed={seed}", f"count={n}", f"out={scen}"])
     scs, bad = explore(ck, scen, os.path.join(w, "runs"), f"{pid}_rnd")
-    for sc, info in bad[:8]:
-        report(ck, sc, info)
-    if len(bad) > 8:
-        log(f"[{pid}] ... and {len(bad) - 8} more diverging scenarios (not written as replay files)")
-        ck.violations += len(bad) - 8
+    for sc, info in bad[:30]:
+        report(ck, sc, info, files=scenario_files(os.path.join(w, "runs"), sc["id"]))
+    if len(bad) > 30:
+        log(f"[{pid}] ... and {len(bad) - 30} more diverging scenarios (not written as replay files)")
+        ck.violations += len(bad) - 30
     log(f"[{pid}] {len(scs)} scenarios x 4 runs compared by TLC: {len(bad)} diverging")
 
     # witnesses of repaired defects stay in the corpus and are re-run every time
@@ -172,8 +209,9 @@ def run(pid, tier, seed, replay=None):
         for rep in range(reps):
             _, cbad = explore(ck, cs, os.path.join(w, f"corpus_runs{rep}"), f"{pid}_corpus{rep}", label=f"corpus#{rep}")
             for sc, info in cbad:
-                report(ck, sc, info, {"corpus": cfiles[sc["id"]] if sc.get("id", 0) < len(cfiles) else "?"})
-            if cbad:
+                report(ck, sc, info, {"corpus": cfiles[sc["id"]] if sc.get("id", 0) < len(cfiles) else "?"},
+                       files=scenario_files(os.path.join(w, f"corpus_runs{rep}"), sc["id"]))
+            if ck.violations:
                 break
         log(f"[{pid}] corpus witnesses {cfiles}: {'ok' if not cbad else 'REJECTED'}")
 
@@ -259,7 +297,7 @@ def do_replay(ck, path, w):
     for rep in range(reps):
         _, bad = explore(ck, scen, os.path.join(w, f"replay{rep}"), f"{ck.pid}_replay{rep}", label=f"replay#{rep}")
         if bad:
-            report(ck, rp["scenario"], bad[0][1], {"replayed": path})
+            report(ck, rp["scenario"], bad[0][1], {"replayed": path}, files=scenario_files(os.path.join(w, f"replay{rep}"), 0))
             break
     else:
         log(f"[{ck.pid}] replay: {reps} x 4 runs of the scenario are identical")
